@@ -1,5 +1,5 @@
 """C08 -- printed scripts parse back to the same script at every line width."""
-import os, sys, json, subprocess
+import os, sys, json, subprocess, time
 from vlib import *
 
 PROP = 'C08'
@@ -52,7 +52,7 @@ def main(argv):
             jobs.append(['decomp'] + sample_binaries() + spec_corpus)
             jobs.append(['defects'])
             if tier == 'quick':
-                jobs += [['lits', 8], ['floats', 6000, 40], ['exprs', 3000, 2, 700], ['stmts', 2000, 2, 450], ['soup', 1200], ['mutate', 1200]]
+                jobs += [['lits', 8], ['floats', 6000, 60], ['exprs', 3000, 2, 400], ['stmts', 2000, 2, 260], ['soup', 800], ['mutate', 800]]
             else:
                 jobs += [['lits', 60], ['floats', 4200000, 2500], ['soup', 8000], ['mutate', 8000]]
                 jobs += [['exprs', 5000, 3, 700 if k == 0 else 0, 'allwidths'] for k in range(4)]
@@ -69,6 +69,7 @@ def main(argv):
             v.obligation('harness inputs accepted', False, '; '.join(rejected)[:800])
     hist = {}
     for k in kinds: hist[k] = hist.get(k, 0) + 1
+    v.notes.append('phase: proofs+harness build and generation done at %.0fs' % (time.time() - v.t0))
 
     # (O) implementation-level oracle: violations with the concrete AST (as a term the harness can re-run)
     per_class = {}
@@ -81,7 +82,8 @@ def main(argv):
         v.violation('implementation-level oracle: %s (%d occurrences this run)' % (f[1], len(fs)),
                     {'class': cls, 'input': f[2] if len(f) > 2 else '', 'printed_text': f[3] if len(f) > 3 else '', 'what_oracle': f[1]})
 
-    shard = 450 if tier == 'quick' else 1200
+    t_h = time.time()
+    shard = max(120, (len(cases) + 15) // 16) if tier == 'quick' else 1200
     if v.corr_ok and cases:
         mism, errs = coq_eval_cases(PROP, IMPORTS, 'c08case', cases, shard=shard, imports='Open Scope string_scope.')
         v.obligation('correspondence: model = implementation on %d cases (printer text at the given width, lexing certificate, logos tokens, LALRPOP parse result; vm_compute inside Coq)' % len(cases),
@@ -95,6 +97,7 @@ def main(argv):
                         {'class': 'c08-corr:' + kinds[i], 'kind': kinds[i], 'input': inputs[i], 'case': cases[i][:20000], 'printed_text': texts[i][:2000],
                          'broken': 'correspondence Corr.C08.model_of'},
                         no_failing_input=not any(f[0] not in [k['class'] for k in v.known_findings] for f in oracle_fail))
+    v.notes.append('phase: correspondence evaluation took %.0fs' % (time.time() - t_h))
     if (not proofs_ok or not v.corr_ok) and not v.violations:
         v.violation('proof obligation does not check: %s' % json.dumps(v.coq_error)[:400],
                     {'class': 'c08-proof', 'broken': v.coq_error}, no_failing_input=True)
